@@ -466,7 +466,7 @@ func (e *dispEnv) runMsg(runner, name string, t int32, count int64, kind string)
 	if len(newly) > 0 {
 		nw = strings.Join(newly, ";")
 	}
-	e.out.Emit(fmt.Sprintf("chk c11.claims tag=disp.claims.one-per-type-deleted-on-pay claims=%s paid=%s", e.keysDump(disptypes.UserClaimPrefix), nw), "true", "chk.claims", false)
+	e.out.Emit(fmt.Sprintf("chk c11.claims tag=disp.claim.one-per-account-and-type claims=%s paid=%s", e.keysDump(disptypes.UserClaimPrefix), nw), "true", "chk.claims", false)
 }
 
 func minInt(a, b int) int {
@@ -478,6 +478,9 @@ func minInt(a, b int) int {
 
 func (e *dispEnv) opClaim(rng *Rng) {
 	user := e.rcpts[rng.Intn(len(e.rcpts))]
+	if rng.Chance(1, 3) {
+		user = strings.ToUpper(user) // the same account in its other valid spelling
+	}
 	if rng.Chance(1, 30) {
 		user = "bad_addr"
 	}
@@ -491,7 +494,7 @@ func (e *dispEnv) opClaim(rng *Rng) {
 		return err
 	})
 	e.out.Emit(fmt.Sprintf("d.claim %s %d", user, t), res, "claim."+res, res == "ok")
-	e.out.Emit(fmt.Sprintf("chk c11.claims tag=disp.claims.one-per-type-deleted-on-pay claims=%s paid=-", e.keysDump(disptypes.UserClaimPrefix)), "true", "chk.claims", false)
+	e.out.Emit(fmt.Sprintf("chk c11.claims tag=disp.claim.one-per-account-and-type claims=%s paid=-", e.keysDump(disptypes.UserClaimPrefix)), "true", "chk.claims", false)
 }
 
 // directed history (DESIGN 4/C11 candidate): same block, same distributor and type, two creations
@@ -606,8 +609,23 @@ func (e *dispEnv) directedTwoRunners(rng *Rng) {
 func (e *dispEnv) directedSpelling(rng *Rng) {
 	D, A, B := e.users[0].String(), e.users[1].String(), e.users[2].String()
 	U, V, X := e.users[3].String(), e.users[4].String(), e.rcpts[len(e.rcpts)-1]
-	t := int32(1 + rng.Intn(3))
+	t := int32(2 + rng.Intn(2)) // claim-type records
 	name := fmt.Sprintf("%d_%s", e.height, D)
+	claim := func(a string) {
+		msg := disptypes.MsgCreateUserClaim{UserClaimAddress: a, UserClaimType: disptypes.DistributionType(t)}
+		res := e.deliver(msg.ValidateBasic, func(ctx sdk.Context) error {
+			_, err := e.srv.CreateUserClaim(sdk.WrapSDKContext(ctx), &msg)
+			return err
+		})
+		e.out.Emit(fmt.Sprintf("d.claim %s %d", a, t), res, "directed3.claim."+res, res == "ok")
+		e.out.Emit(fmt.Sprintf("chk c11.claims tag=disp.claim.one-per-account-and-type claims=%s paid=-", e.keysDump(disptypes.UserClaimPrefix)), "true", "chk.claims", false)
+		e.after()
+	}
+	// the same account files its claim under both spellings: one claim per account and type;
+	// V files it in lower case and is later named in upper case by the distribution
+	claim(U)
+	claim(strings.ToUpper(U))
+	claim(V)
 	mk := func(runner string, addrs []string) {
 		var outs []banktypes.Output
 		var toks []string
@@ -634,6 +652,7 @@ func (e *dispEnv) directedSpelling(rng *Rng) {
 	mk(A, []string{U, strings.ToUpper(U), strings.ToUpper(V), strings.ToUpper(X), strings.ToUpper(U)})
 	e.runMsg(A, name, t, 1, "directed3.one")
 	e.after()
+	claim(strings.ToUpper(U)) // re-filed in the other spelling after being paid (or still held)
 	mk(B, []string{strings.ToUpper(U), V})
 	e.runMsg(A, name, t, 20, "directed3.rest")
 	e.after()
